@@ -542,6 +542,9 @@ def run(ctx: Ctx, rep: Report, tier: str) -> None:
         flags_rule(ctx, rep, opt)
     r03_5(ctx, rep, helpers.get("_protocol"))
     r03_6(ctx, rep, helpers)
+    from .c01 import field_isolation
+
+    field_isolation(ctx, rep, "R03.8")
 
 
 def flags_rule(ctx: Ctx, rep: Report, h: Func) -> None:
